@@ -102,6 +102,29 @@ func c01DeepReorgs(c *Ctx, l *lib.Lean) error {
 				stale++
 			}
 		}
+		// label by label: every B header (and genesis) is on the longest chain, every A header is stale
+		wrong, firstWrong := 0, ""
+		want := map[string]string{}
+		for i := range nodes {
+			if i < n {
+				want[nodes[i].Hdr.HashStr()] = "STALE"
+			} else {
+				want[nodes[i].Hdr.HashStr()] = "LONGEST_CHAIN"
+			}
+		}
+		for _, r := range rows {
+			if w, ok := want[r.Hash]; ok && r.State != w {
+				wrong++
+				if firstWrong == "" {
+					firstWrong = fmt.Sprintf("height %d %s… is %s, expected %s", r.Height, r.Hash[:12], r.State, w)
+				}
+			}
+		}
+		if wrong > 0 {
+			c.R.Fail(lib.Failure{Case: name, Ops: ctx,
+				What:     fmt.Sprintf("after the submission that makes a branch of exactly n headers overtake a longest chain of exactly n headers, %d headers carry the wrong chain-state label: the longest-chain labels are not the parent-linked path from genesis to the greatest-work header", wrong),
+				Expected: "every header of the overtaking branch LONGEST_CHAIN, every header of the overtaken one STALE", Observed: firstWrong, Signature: "c01-exact-size-reorganisation-labels"})
+		}
 		tipWant := nodes[len(nodes)-1].Hdr.HashStr()
 		if !strings.HasPrefix(last, "stored") || len(rows) != 2*n+2 || lc != n+2 || stale != n || !strings.Contains(impl[len(impl)-1], tipWant) {
 			c.R.Fail(lib.Failure{Case: name, Ops: ctx,
